@@ -1451,7 +1451,11 @@ func (db *DB) checkpointIfNeeded(ctx context.Context, exec *syncExecutor, origWA
 	}
 
 	// Priority 2: Regular checkpoint at min threshold (PASSIVE mode)
-	if newWALSize >= calcWALSize(uint32(db.pageSize), uint32(db.MinCheckpointPageN)) {
+	// A WAL holding a single frame is either already minimal or contains only
+	// the _litestream_seq bookkeeping frame written by the previous checkpoint.
+	// Checkpointing it again would write a new bookkeeping frame and repeat
+	// forever on an idle database when MinCheckpointPageN is 1.
+	if newWALSize >= calcWALSize(uint32(db.pageSize), uint32(db.MinCheckpointPageN)) && newWALSize > calcWALSize(uint32(db.pageSize), 1) {
 		if _, err := db.checkpointWithExecutor(ctx, CheckpointModePassive, exec); err != nil {
 			// PASSIVE checkpoints can fail with SQLITE_BUSY when database is locked.
 			// This is expected behavior and not an error - just log and continue.
